@@ -37,8 +37,23 @@ def dec_ds(raw, ts=IMPLICIT):
 
 
 def ds_equal(a, b):
-    """Element-wise equality of two data sets via a canonical re-encoding."""
-    return enc_ds(a, EXPLICIT) == enc_ds(b, EXPLICIT)
+    """Element-wise equality of two data sets via a canonical re-encoding.  `a` is the observed value:
+    if it cannot even be re-encoded (garbage produced by the code under test) it is simply not equal."""
+    want = enc_ds(b, EXPLICIT)
+    try:
+        got = enc_ds(a, EXPLICIT)
+    except Exception:
+        return False
+    return got == want
+
+
+def wire_ds_equal(raw, ts, want):
+    """True iff the bytes `raw` (observed on the wire, transfer syntax ts) decode to the data set `want`."""
+    try:
+        got = dec_ds(raw or b'', ts)
+    except Exception:
+        return False
+    return ds_equal(got, want)
 
 
 def simple_ds(**kw):
